@@ -215,9 +215,31 @@ fn run_chunk_data(d: Vec<u8>, depth: u8, ops: &[Op]) -> String {
     }
 }
 
-pub const ADAPTERS: [&str; 19] = [
+/// a `Read + Skip` that returns at most `.1` bytes per `read` call
+pub struct Trickle<R>(pub R, pub usize);
+
+impl<R: Read> Read for Trickle<R> {
+    fn read(&mut self, buf: &mut [u8]) -> io::Result<usize> {
+        let n = buf.len().min(self.1);
+        self.0.read(&mut buf[..n])
+    }
+}
+
+impl<R: mediasan_common::Skip> mediasan_common::Skip for Trickle<R> {
+    fn skip(&mut self, amount: u64) -> io::Result<()> {
+        self.0.skip(amount)
+    }
+    fn stream_position(&mut self) -> io::Result<u64> {
+        self.0.stream_position()
+    }
+    fn stream_len(&mut self) -> io::Result<u64> {
+        self.0.stream_len()
+    }
+}
+
+pub const ADAPTERS: [&str; 20] = [
     "syncadapter", "abufreader-syncadapter", "abufreader-pend", "apinbox-pend", "arefmut", "abox",
-    "cursor", "seekskip", "bufreader", "bufreader-seekskip", "refmut", "box", "bufreader-box-bufreader", "file",
+    "cursor", "seekskip", "bufreader", "bufreader-seekskip", "refmut", "box", "bufreader-box-bufreader", "bufreader-trickle", "file",
     "acursor", "aseekskip", "abufreader", "apinbox", "abufreader-abufreader",
 ];
 
@@ -241,6 +263,8 @@ pub fn run_adapter(adapter: &str, cap: usize, s: &Sparse, ops: &[Op]) -> String 
                         run_sync(&mut c, ops)
                     }
                     "box" => run_sync(Box::new(BufReader::with_capacity(cap, Cursor::new(d))), ops),
+                    // an inner reader that hands out at most 3 bytes per read (a pipe, a socket): a refill may be short
+                    "bufreader-trickle" => run_sync(BufReader::with_capacity(cap, Trickle(SeekSkipAdapter(Cursor::new(d)), 3)), ops),
                     "bufreader-box-bufreader" => run_sync(BufReader::with_capacity(cap, Box::new(BufReader::with_capacity(3, Cursor::new(d)))), ops),
                     "file" => {
                         let path = std::env::temp_dir().join(format!("verif-c15-{}.bin", std::process::id()));
@@ -446,7 +470,7 @@ pub fn run<W: Write>(opts: &Opts, out: &mut W) {
                     continue;
                 }
                 // rotate through the buffered adapters; the unbuffered ones only need one capacity
-                let adapter = ["bufreader", "bufreader-seekskip", "abufreader", "refmut", "box", "apinbox", "bufreader-box-bufreader", "abufreader-abufreader", "abufreader-pend", "apinbox-pend", "arefmut", "abox"][(idx % 12) as usize];
+                let adapter = ["bufreader", "bufreader-seekskip", "abufreader", "refmut", "box", "apinbox", "bufreader-box-bufreader", "abufreader-abufreader", "abufreader-pend", "apinbox-pend", "arefmut", "abox", "bufreader-trickle"][(idx % 13) as usize];
                 emit(out, &format!("ex{len}-{code}-{cap}"), adapter, cap, &s8, &ops);
                 if cap == 1 {
                     for a in ["cursor", "seekskip", "acursor", "aseekskip"] {
